@@ -566,3 +566,89 @@ package rtpconn
 //@   requires unlocked: !held(c.mu)
 //@   modifies held(c.mu)
 //@   ensures unlocked: !held(c.mu)
+//@
+//@ -- ------------------------------------------------------------------ queued actions (C11 revocation, C12, guards of C07/C14)
+//@ func pushDownConn
+//@   trusted
+//@   why webclient.go: offers (or closes) one down connection of c according to its request map
+//@   requires nonnil: c != nil
+//@   modifies *
+//@   ensures keeps: keeps(c)
+//@   ensures keeps-perms: keepsperms(c)
+//@ func getUpConn
+//@   trusted
+//@   why webclient.go: looks an up connection up under c.mu
+//@   requires nonnil: c != nil
+//@   modifies *
+//@   ensures keeps: keeps(c)
+//@   ensures keeps-perms: keepsperms(c)
+//@ func getUpConns
+//@   trusted
+//@   why webclient.go: snapshot of the up connections under c.mu (no nil entries: they are the values of c.up)
+//@   requires nonnil: c != nil
+//@   modifies *
+//@   ensures keeps: keeps(c)
+//@   ensures keeps-perms: keepsperms(c)
+//@   ensures entries: forall k int :: 0 <= k && k < len(result) ==> result[k] != nil
+//@ func (*webClient).PushConn
+//@   trusted
+//@   why webclient.go: queues a pushConnAction for c
+//@   requires nonnil: c != nil
+//@   modifies *
+//@   ensures keeps: keeps(c)
+//@   ensures keeps-perms: keepsperms(c)
+//@ func (*rtpUpConnection).getTracks
+//@   trusted
+//@   why rtpconn.go: snapshot of the tracks under the connection's mutex
+//@   modifies nothing
+//@ func (*rtpUpConnection).getReplace
+//@   trusted
+//@   why rtpconn.go: reads (and optionally resets) the replace field under the connection's mutex
+//@   modifies *
+//@ extern ice.ICEConfiguration
+//@   why ice: the cached ICE configuration
+//@   modifies nothing
+//@ extern log.Println
+//@   why logging only
+//@   modifies nothing
+//@ iface conn.Up.Id
+//@   why conn.Up: the identifier of an up connection
+//@   pure
+//@ iface group.Client.PushConn
+//@   why group.Client: queues (or ignores) a connection offer for the client
+//@   modifies *
+//@
+//@ func handleAction$1
+//@   props C12
+//@   -- (the goroutine that announces a permission change: started only with the group found non-nil)
+//@   requires nonnil: g != nil
+//@   modifies *
+//@
+//@ func handleAction
+//@   props C11 C12
+//@   requires nonnil: c != nil && cwf(c)
+//@   requires token-store-free: !held(token.tokens.mu) && !held(group.groups.mu)
+//@   -- context assumptions: the client loop holds no group mutex; a registered group has a description (invariant of the table of groups)
+//@   assume no-group-lock: forall n string :: has(group.groups.groups, n) ==> group.groups.groups[n] == nil || !held(group.groups.groups[n].mu)
+//@   assume table: forall n string :: has(group.groups.groups, n) && group.groups.groups[n] != nil ==> group.groups.groups[n].description != nil
+//@   modifies *
+//@   invariant loop 5 g1: g$4 != nil
+//@   invariant loop 5 g2: same(g$4, c.group)
+//@   invariant loop 5 g3: cwf(c)
+//@   -- C07/C14 (guards): connections and membership events of another group than the client's current one are dropped;
+//@   -- C12: a queued membership event may be handled after the client has left its group (c.group == nil)
+//@   assert at call pushDownConn same-group: c.group != nil
+//@   assert at call Name#1 member: c.group != nil
+//@
+//@ -- the in-place editors of a permission list write only into that list's own backing array (or a new one)
+//@ func remove
+//@   safe
+//@   props C11 C12
+//@   modifies full(l)
+//@   invariant loop 1 range: -1 <= rangeindex && rangeindex < len(l)
+//@   ensures shorter: len(result) <= len(l)
+//@ func addnew
+//@   safe
+//@   props C11 C12
+//@   modifies full(l)
+//@   ensures present: len(result) >= len(l)
